@@ -67,7 +67,7 @@ impl Case for St {
 }
 
 fn mk(id: &'static str, decode: fn(&mut Source) -> Box<dyn Case>) -> PropDef {
-    PropDef { id, title: "engine self-test", rule: "planted failure", assumptions: &[], spaces: vec![Space { name: "xs", decode, plan: |t| Plan::Random(t.n(20_000, 20_000)) }], differential: false }
+    PropDef { id, title: "engine self-test", rule: "planted failure", assumptions: &[], spaces: vec![Space { name: "xs", decode, plan: |t| Plan::Random(t.n(20_000, 20_000)) }], differential: false, floors: &[] }
 }
 
 pub fn defs() -> Vec<PropDef> {
